@@ -475,6 +475,7 @@ def parseCall (toks : List String) : Option Call :=
   | ["sock_listen", d, e] => do some (.mut .sockListen .sock (← n d) (← argOpt e))
   | ["sock_connect", d, srv, e] => do some (.connect (← n d) (← n srv) (← argOpt e))
   | ["sock_connect_refused", d, e] => do some (.mut .sockConnectRefused .sock (← n d) (← argOpt e))
+  | ["sock_connect_timeout", d, e] => do some (.mut .sockConnectRefused .sock (← n d) (← argOpt e))
   | ["sock_accept", s, d, e] => do some (.derive .sockAccept (← n s) (← n d) (← argOpt e))
   | ["sock_local", s, d, e] => do some (.derive .sockLocal (← n s) (← n d) (← argOpt e))
   | ["sock_remote", s, d, e] => do some (.derive .sockRemote (← n s) (← n d) (← argOpt e))
